@@ -979,6 +979,43 @@ impl Mut {
         with_report("C06", |r| r.count("finalizers_registered", 1));
     }
 
+    /// `get_finalizers_for(o)`: the VM withdraws the registration(s) of an object it still holds.
+    /// Exactly the outstanding registrations of that object must come back, and the remaining
+    /// candidates must be treated as before (in particular the ones registered since the last GC
+    /// are still scanned by the next nursery GC).
+    fn op_get_finalizers_for(&mut self) {
+        let w = world();
+        let mut sh = w.shadow.lock().unwrap();
+        // an object with an outstanding registration that is strongly reachable from the mutators'
+        // roots right now (so the VM may legitimately hold a reference to it), preferably an old one
+        if sh.fin_registered.is_empty() {
+            return;
+        }
+        let mut reach = std::collections::HashSet::new();
+        let seeds = sh.root_ids();
+        sh.closure(seeds, false, false, &mut reach);
+        let mut cand: Vec<(u32, u64)> = sh.fin_registered.keys().filter(|id| reach.contains(*id)).map(|id| (sh.objs[id].survived, *id)).collect();
+        cand.sort();
+        if cand.is_empty() {
+            return;
+        }
+        // the oldest two thirds of the time, any otherwise
+        let id = if self.rng.chance(2, 3) { cand[cand.len() - 1].1 } else { cand[self.rng.usize_below(cand.len())].1 };
+        let n = sh.fin_registered[&id];
+        let a = sh.objs[&id].addr;
+        let got = memory_manager::get_finalizers_for(w.mmtk, objref(a));
+        if got.len() != n as usize || got.iter().any(|o| o.to_raw_address().as_usize() != a) {
+            violation("C06", "get_finalizers_for:wrong-registrations-returned", format!("get_finalizers_for({:#x}) (object id {}, {} outstanding registration(s)) returned {:?}", a, id, n, got.iter().map(|o| o.to_raw_address().as_usize()).collect::<Vec<_>>()));
+        }
+        sh.fin_registered.remove(&id);
+        sh.fin_may_be_ready.remove(&id);
+        drop(sh);
+        with_report("C06", |r| {
+            r.evaluations += 1;
+            r.count("get_finalizers_for_calls", 1);
+        });
+    }
+
     fn op_pop_finalized(&mut self) {
         let w = world();
         // pop under the shadow lock so that the reachability judgement is consistent
@@ -1646,9 +1683,10 @@ impl Mut {
                 }
                 920..=934 => {
                     if cfg.finalizers {
-                        match self.rng.below(3) {
-                            0 => self.op_reg_finalizer(),
-                            1 => self.op_pop_finalized(),
+                        match self.rng.below(7) {
+                            0 | 1 => self.op_reg_finalizer(),
+                            2 | 3 => self.op_pop_finalized(),
+                            4 | 5 => self.op_get_finalizers_for(),
                             _ => self.op_drop_vm_strong(),
                         }
                     }
